@@ -156,6 +156,11 @@ bool QXmppVCardManager::handleStanza(const QDomElement &element)
         QXmppVCardIq vCardIq;
         vCardIq.parse(element);
 
+        // vCard requests (e.g. from other entities) are not handled here, the client replies with an error
+        if (vCardIq.type() == QXmppIq::Get || vCardIq.type() == QXmppIq::Set) {
+            return false;
+        }
+
         if (vCardIq.from().isEmpty() || vCardIq.from() == client()->configuration().jidBare()) {
             d->clientVCard = vCardIq;
             d->isClientVCardReceived = true;
